@@ -8,9 +8,20 @@
 // 96 below 4096) and key layouts that make chunk pass-through happen or nearly happen:
 // disjoint blocks, interleaved blocks, a buffer whose first key equals the last key of
 // another buffer's chunk, fully random.
+//
+// "Input buffers left unchanged": every buffer that was an argument or the result of a Merge
+// is kept alive (as older snapshots keep the layers they started with) and is read again
+// completely after EVERY later Merge (Recheck event: Iter, Len, Check; Lookup of every key of
+// the universe for the arguments of that merge and at the end of the scenario). Two scenario
+// families make the chunk layouts where a merge could write into storage it shares with an
+// input: "chain" (a base layer merged again and again with small new layers, db19 style: the
+// outputs, with their passed-through large chunks and flushed small chunks, are the inputs of
+// the next merge) and "shaped" (input chunks cut to chosen sizes, large / small / large in key
+// order, the other inputs interleaved as single slots), with totals on both sides of the goal
+// boundaries (goal 24 / 48 / 96).
 // Keys are logged as ranks of a strictly monotone key table, offsets as ids.
 //
-// usage: ixbuf <trace.ndjson> <nsmall> <nsized> <nbig>
+// usage: ixbuf <trace.ndjson> <nsmall> <nsized> <nbig> <nchain> <nshaped>
 package main
 
 import (
@@ -61,6 +72,9 @@ type scen struct {
 	noff  int
 	nit   int
 	dead  bool
+	// buffers that were an argument or the result of a Merge, in order: shared values from then on
+	frozen   []int
+	isFrozen map[int]bool
 	// skip-scan tables (composite universes only), skipStart = 1
 	pfx, sfx []string
 }
@@ -69,7 +83,7 @@ func newScen(tr *vh.Trace, rnd *rand.Rand, keys []string, kind string) *scen {
 	if msg := nastykeys.Check(keys); msg != "" {
 		vh.Fatal("%s", msg)
 	}
-	s := &scen{tr: tr, rnd: rnd, keys: keys, K: len(keys), offid: map[uint64]int{}}
+	s := &scen{tr: tr, rnd: rnd, keys: keys, K: len(keys), offid: map[uint64]int{}, isFrozen: map[int]bool{}}
 	s.cur = make([]int, s.K)
 	empty := 0
 	if keys[0] == "" {
@@ -221,10 +235,18 @@ func (s *scen) fill(b int, ops []op, order int) {
 
 // content logs what Iter() yields for buffer b, Len() and Check()
 func (s *scen) content(b int) {
+	ks, tags, offs, n, chk, ok, msg := s.readAll(b)
+	s.tr.Emit(vh.E("Content", "b", b, "ks", ks, "ops", tags, "offs", offs, "len", n, "chk", chk, "ok", ok, "msg", msg))
+	stats["contents"]++
+	stats["entries_compared"] += len(ks)
+}
+
+// readAll reads buffer b completely: Iter() to the end, Len(), Check()
+func (s *scen) readAll(b int) (ks []int, tags []string, offs []int, n, chk, ok int, msg string) {
 	ib := s.bufs[b-1]
-	ks, tags, offs := []int{}, []string{}, []int{}
-	n, chk := -1, 1
-	ok, msg := safely(func() {
+	ks, tags, offs = []int{}, []string{}, []int{}
+	n, chk = -1, 1
+	ok, msg = safely(func() {
 		it := ib.Iter()
 		for k, off, more := it(); more; k, off, more = it() {
 			t, id := s.decode(off)
@@ -242,9 +264,52 @@ func (s *scen) content(b int) {
 			stats["check_panics"]++
 		}
 	}
-	s.tr.Emit(vh.E("Content", "b", b, "ks", ks, "ops", tags, "offs", offs, "len", n, "chk", chk, "ok", ok, "msg", msg))
-	stats["contents"]++
+	return
+}
+
+// maxFullLookup: universes up to this size get a Lookup of every key in a recheck
+const maxFullLookup = 700
+
+// recheck reads a frozen buffer again after the merge that produced buffer `after` (0 = end of
+// the scenario); full = also Lookup every key of the universe
+func (s *scen) recheck(b, after int, full bool) {
+	ks, tags, offs, n, chk, ok, msg := s.readAll(b)
+	lkops, lkoffs := []string{}, []int{}
+	if ok == 1 && full && s.K <= maxFullLookup {
+		ib := s.bufs[b-1]
+		ok, msg = safely(func() {
+			for r := 1; r <= s.K; r++ {
+				t, id := s.decode(ib.Lookup(s.keys[r-1]))
+				lkops, lkoffs = append(lkops, t), append(lkoffs, id)
+			}
+		})
+		stats["recheck_lookups"] += len(lkops)
+	}
+	s.tr.Emit(vh.E("Recheck", "b", b, "after", after, "ks", ks, "ops", tags, "offs", offs, "len", n, "chk", chk,
+		"lkops", lkops, "lkoffs", lkoffs, "ok", ok, "msg", msg))
+	stats["rechecks"]++
 	stats["entries_compared"] += len(ks)
+}
+
+func (s *scen) freeze(b int) {
+	if !s.isFrozen[b] {
+		s.isFrozen[b] = true
+		s.frozen = append(s.frozen, b)
+	}
+}
+
+// recheckAll: the arguments of the merge that produced `after` completely, every other frozen
+// buffer (arguments and results of earlier merges, still held by older snapshots) by iteration
+func (s *scen) recheckAll(after int, ins []int) {
+	isIn := map[int]bool{}
+	for _, b := range ins {
+		isIn[b] = true
+	}
+	for _, b := range s.frozen {
+		if b != after {
+			s.recheck(b, after, isIn[b] || after == 0)
+		}
+	}
 }
 
 func (s *scen) merge(ins []int) int {
@@ -265,10 +330,12 @@ func (s *scen) merge(ins []int) int {
 		s.dead = true
 		return ob
 	}
-	s.content(ob)
 	for _, b := range ins {
-		s.content(b) // inputs after: must be unchanged
+		s.freeze(b)
 	}
+	s.freeze(ob)
+	s.content(ob)
+	s.recheckAll(ob, ins) // inputs of this and of all earlier merges: must be unchanged
 	return ob
 }
 
@@ -569,15 +636,235 @@ func scenario(tr *vh.Trace, rnd *rand.Rand, kind string, K int, nb int, sizes []
 	if rnd.Intn(2) == 0 {
 		s.walk(ins[rnd.Intn(len(ins))], walkLen/2)
 	}
+	s.recheckAll(0, nil) // reading did not change anything either
+}
+
+// pickRanks: n ranks for a small new layer: scattered single keys, or a run of consecutive ranks
+// starting at a random place (ascending, no duplicates)
+func pickRanks(rnd *rand.Rand, K, n int, run bool) []int {
+	set := map[int]bool{}
+	if run {
+		at := 1 + rnd.Intn(K)
+		for i := 0; i < n && at+i <= K; i++ {
+			set[at+i] = true
+		}
+	} else {
+		for i := 0; i < n; i++ {
+			set[1+rnd.Intn(K)] = true
+		}
+	}
+	out := make([]int, 0, len(set))
+	for r := range set {
+		out = append(out, r)
+	}
+	sort.Ints(out)
+	return out
+}
+
+// finish: reads on the last output and on an older buffer, then every frozen buffer once more
+func (s *scen) finish(out int, walkLen int) {
+	if s.dead {
+		return
+	}
+	s.lookups(out, 10)
+	s.rangeActs(out, 3)
+	s.walk(out, walkLen)
+	if len(s.frozen) > 0 {
+		old := s.frozen[s.rnd.Intn(len(s.frozen))]
+		s.rangeActs(old, 2)
+		s.walk(old, walkLen/2)
+	}
+	s.recheckAll(0, nil)
+}
+
+// chainScenario: the way db19 uses ixbuf. A base layer of n entries; then `rounds` times one to
+// three small new layers (transactions) are merged into it, in one Merge or (like the two
+// stage merge of db19) first among themselves and then with the base. Every merge result is the
+// input of the next merge, so the inputs have the chunk structure merges produce: large chunks
+// passed through untouched for generations, small chunks where a buffer was flushed around an
+// inserted slot. All previous bases and layers stay alive and are rechecked after every merge.
+func chainScenario(tr *vh.Trace, rnd *rand.Rand, n int, rounds int, style nastykeys.Style) {
+	dens := []float64{0.55, 0.8, 0.95}[rnd.Intn(3)]
+	K := int(float64(n)/dens) + 4
+	keys := nastykeys.Universe(rnd, K, style)
+	order := []int{1, 1, 2, 3}[rnd.Intn(4)]
+	s := newScen(tr, rnd, keys, fmt.Sprintf("chain/%s/n%d/order%d", style, n, order))
+	pbase := []float64{0, 0, 0.3}[rnd.Intn(3)]
+	for r := range s.cur {
+		if rnd.Float64() < pbase {
+			id, _ := s.newOff()
+			s.cur[r] = id
+		}
+	}
+	var ranks []int
+	for r := 1; r <= s.K; r++ {
+		if rnd.Float64() < dens {
+			ranks = append(ranks, r)
+		}
+	}
+	pdel := []float64{0.1, 0.3}[rnd.Intn(2)]
+	base := s.newBuf()
+	s.fill(base, s.genOps(ranks, pdel, 0), order)
+	if s.dead {
+		return
+	}
+	for i := 0; i < rounds && !s.dead; i++ {
+		nl := []int{1, 1, 1, 2, 3}[rnd.Intn(5)]
+		var layers []int
+		for j := 0; j < nl; j++ {
+			var rk []int
+			switch rnd.Intn(6) {
+			case 0:
+				rk = pickRanks(rnd, s.K, 2+rnd.Intn(30), true) // a run: its own chunks get passed through
+			case 1:
+				rk = pickRanks(rnd, s.K, 5+rnd.Intn(12), false)
+			default:
+				rk = pickRanks(rnd, s.K, 1+rnd.Intn(3), false) // a transaction touching 1..3 keys
+			}
+			b := s.newBuf()
+			s.fill(b, s.genOps(rk, pdel, 5), rnd.Intn(4))
+			if s.dead {
+				return
+			}
+			layers = append(layers, b)
+		}
+		if nl >= 2 && rnd.Intn(3) == 0 {
+			t := s.merge(layers)
+			if s.dead {
+				return
+			}
+			base = s.merge([]int{base, t})
+		} else {
+			base = s.merge(append([]int{base}, layers...))
+		}
+	}
+	s.finish(base, 12)
+}
+
+// shapedScenario: input A gets chunks of chosen sizes: it is filled in ascending key order
+// (chunks of 18 while it has fewer than 256 entries, 36 from 1024 on the way up) and then
+// thinned by add+delete pairs that remove entries again, group by group, down to a size chosen
+// from small (<= goal/2 of the merge), just above goal/2 and full. The other inputs hold single
+// keys (or short runs) between A's keys, and a few updates / deletes of A's own keys, so that
+// most of A's chunks are passed through and some are output slot by slot in between. Two or
+// three more merges with sparse layers follow on the result.
+func shapedScenario(tr *vh.Trace, rnd *rand.Rand, n int, nother int, style nastykeys.Style) {
+	psp := []float64{0.02, 0.05, 0.12}[rnd.Intn(3)] // share of ranks reserved for the other inputs
+	K := int(float64(n)/(1-psp)) + 6
+	keys := nastykeys.Universe(rnd, K, style)
+	s := newScen(tr, rnd, keys, fmt.Sprintf("shaped/%s/n%d/others%d", style, n, nother))
+	var aRanks, oRanks []int
+	for r := 1; r <= s.K; r++ {
+		if rnd.Float64() < psp {
+			oRanks = append(oRanks, r)
+			if rnd.Intn(2) == 0 { // the reserved key exists in the base state: update / delete
+				id, _ := s.newOff()
+				s.cur[r-1] = id
+			}
+		} else {
+			aRanks = append(aRanks, r)
+		}
+	}
+	if len(oRanks) == 0 {
+		oRanks = append(oRanks, aRanks[len(aRanks)/2])
+	}
+	// A: ascending adds, then thin out group by group
+	ops := s.genOps(aRanks, 0, 0)
+	group := []int{18, 18, 18, 36, 12}[rnd.Intn(5)]
+	if n >= 1024 {
+		group = []int{36, 36, 72, 18}[rnd.Intn(4)]
+	}
+	var dels []op
+	for at := 0; at < len(aRanks); at += group {
+		end := min(at+group, len(aRanks))
+		var keep int
+		switch rnd.Intn(6) {
+		case 0:
+			keep = 1 + rnd.Intn(3)
+		case 1:
+			keep = group/2 - 3 + rnd.Intn(4) // around the small / large boundary
+		case 2:
+			keep = 1 + rnd.Intn(group)
+		default:
+			keep = group // untouched
+		}
+		idx := rnd.Perm(end - at)
+		for _, i := range idx[min(max(keep, 1), end-at):] {
+			r := aRanks[at+i]
+			c := s.cur[r-1]
+			dels = append(dels, op{r, "del", c, nastykeys.OffOf(c)})
+			s.cur[r-1] = 0
+		}
+	}
+	sort.SliceStable(dels, func(i, j int) bool { return dels[i].r < dels[j].r })
+	a := s.newBuf()
+	s.fill(a, ops, 0) // ascending
+	if s.dead {
+		return
+	}
+	if len(dels) > 0 {
+		s.fill(a, dels, 0)
+		if s.dead {
+			return
+		}
+	}
+	pdel := []float64{0.1, 0.4}[rnd.Intn(2)]
+	ins := []int{a}
+	for j := 0; j < nother; j++ {
+		var rk []int
+		for _, r := range oRanks {
+			if rnd.Intn(nother) == 0 || nother == 1 {
+				rk = append(rk, r)
+			}
+		}
+		// a few changes of A's own keys (combine in place with the previous output slot)
+		for i := rnd.Intn(3); i > 0; i-- {
+			rk = append(rk, aRanks[rnd.Intn(len(aRanks))])
+		}
+		if rnd.Intn(4) == 0 {
+			rk = append(rk, pickRanks(rnd, s.K, 13+rnd.Intn(20), true)...)
+		}
+		sort.Ints(rk)
+		rk = slicesCompact(rk)
+		b := s.newBuf()
+		if len(rk) > 0 {
+			s.fill(b, s.genOps(rk, pdel, 6), rnd.Intn(4))
+			if s.dead {
+				return
+			}
+		}
+		ins = append(ins, b)
+	}
+	out := s.merge(ins)
+	for i := 1 + rnd.Intn(3); i > 0 && !s.dead; i-- {
+		b := s.newBuf()
+		s.fill(b, s.genOps(pickRanks(rnd, s.K, 1+rnd.Intn(4), false), pdel, 0), rnd.Intn(4))
+		if s.dead {
+			return
+		}
+		out = s.merge([]int{out, b})
+	}
+	s.finish(out, 12)
+}
+
+func slicesCompact(a []int) []int {
+	out := a[:0]
+	for i, x := range a {
+		if i == 0 || x != a[i-1] {
+			out = append(out, x)
+		}
+	}
+	return out
 }
 
 func atoi(s string) int { n, _ := strconv.Atoi(s); return n }
 
 func main() {
-	if len(os.Args) < 5 {
-		vh.Fatal("usage: ixbuf <trace> <nsmall> <nsized> <nbig>")
+	if len(os.Args) < 7 {
+		vh.Fatal("usage: ixbuf <trace> <nsmall> <nsized> <nbig> <nchain> <nshaped>")
 	}
 	nsmall, nsized, nbig := atoi(os.Args[2]), atoi(os.Args[3]), atoi(os.Args[4])
+	nchain, nshaped := atoi(os.Args[5]), atoi(os.Args[6])
 	rnd := rand.New(rand.NewSource(vh.Seed()*104729 + 11))
 	tr := vh.Create(os.Args[1])
 	defer tr.Close()
@@ -628,6 +915,32 @@ func main() {
 		}
 		K := min(tot+rnd.Intn(50), 2000)
 		scenario(tr, rnd, "big", K, nb, sizes, rnd.Intn(5), nastykeys.Numeric, 8, 20)
+	}
+	// totals below 256 (merge goal 24), 256..1023 (goal 48) and, thorough, from 1024 (goal 96)
+	plain := []nastykeys.Style{nastykeys.Numeric, nastykeys.Alphabet, nastykeys.Numeric}
+	for i := 0; i < nchain; i++ {
+		reset()
+		n := 60 + rnd.Intn(180)
+		switch {
+		case i%4 == 3:
+			n = 230 + rnd.Intn(60) // crosses 256 while merging
+		case i%8 == 5:
+			n = 300 + rnd.Intn(300)
+		case vh.Thorough() && i%16 == 9:
+			n = 1000 + rnd.Intn(200)
+		}
+		chainScenario(tr, rnd, n, 3+rnd.Intn(5), plain[rnd.Intn(3)])
+	}
+	for i := 0; i < nshaped; i++ {
+		reset()
+		n := 50 + rnd.Intn(190)
+		switch {
+		case i%4 == 3:
+			n = 256 + rnd.Intn(300)
+		case vh.Thorough() && i%16 == 9:
+			n = 1024 + rnd.Intn(300)
+		}
+		shapedScenario(tr, rnd, n, 1+rnd.Intn(3), plain[rnd.Intn(3)])
 	}
 	kv := []any{"events", tr.N}
 	names := make([]string, 0, len(stats))
